@@ -692,6 +692,10 @@ func (x *Exec) havocLoop(st *State, fr *Frame, li *loopInfo) {
 		}
 		st.cells[c] = x.freshValue(st, "lv_"+c.name, c.ty)
 	}
+	if st.errSeen != nil || true {
+		// the ghost flag is unknown at an arbitrary iteration; invariants may constrain it
+		st.errSeen = x.fresh("errseen", SBool)
+	}
 	if li.rangeIter != nil {
 		if it, ok := fr.regs[li.rangeIter].(IterV); ok {
 			if it.MapT != nil {
@@ -1635,15 +1639,21 @@ func (x *Exec) makeInterface(st *State, v Value, from, to types.Type) Value {
 		return TV{t, to}
 	}
 	fn := "box_" + x.ti.typeKey(from)
-	x.declareFun(fn, fmt.Sprintf("(declare-fun %s (%s) Iface)", fn, tv.T.Sort))
-	t := App(fn, SIface, tv.T)
-	// a boxed concrete value is never the nil interface
-	st.assume(Not(Eq(t, Atom("iface-nil", SIface))))
-	x.declareFun("dyntype", "(declare-fun dyntype (Iface) Int)")
-	st.assume(Eq(App("dyntype", SInt, t), IntLit(int64(x.v.typeID(from)))))
 	ufn := "unbox_" + x.ti.typeKey(from)
-	x.declareFun(ufn, fmt.Sprintf("(declare-fun %s (Iface) %s)", ufn, tv.T.Sort))
-	st.assume(Eq(App(ufn, tv.T.Sort, t), tv.T))
+	x.declareFun("dyntype", "(declare-fun dyntype (Iface) Int)")
+	if !x.declared[fn] {
+		x.declareFun(fn, fmt.Sprintf("(declare-fun %s (%s) Iface)", fn, tv.T.Sort))
+		x.declareFun(ufn, fmt.Sprintf("(declare-fun %s (Iface) %s)", ufn, tv.T.Sort))
+		// a boxed concrete value is never the nil interface, carries its type, and unboxes to itself
+		x.counter++
+		v := Atom(fmt.Sprintf("v!box%d", x.counter), tv.T.Sort)
+		b := App(fn, SIface, v)
+		x.axioms = append(x.axioms, &Term{Op: "forall", Sort: SBool, Bound: []*Term{v}, Args: []*Term{And(
+			Not(Eq(b, Atom("iface-nil", SIface))),
+			Eq(App("dyntype", SInt, b), IntLit(int64(x.v.typeID(from)))),
+			Eq(App(ufn, tv.T.Sort, b), v))}, Pats: []*Term{b}})
+	}
+	t := App(fn, SIface, tv.T)
 	return TV{t, to}
 }
 
